@@ -547,5 +547,5 @@ func min(a, b int) int {
 }
 
 func TestC16(t *testing.T) {
-	drv.Main(t, drv.Driver{ID: "C16", Gen: gen16, Run: run16, CaseTimeout: 4 * time.Minute})
+	drv.Main(t, drv.Driver{ID: "C16", Gen: gen16, Run: run16, CaseTimeout: 15 * time.Minute})
 }
